@@ -62,3 +62,7 @@ def run(ctx):
     from ..engines import sizecheck as SCC
     SCC.s0_compositions(ctx)
     ctx.floor("S0", 4)
+    # the statistics of the children reach the parent through position tables built in the children's own order (round 10)
+    from ..engines import varkind as V8
+    V8.v1_children_map_builders(ctx)
+    ctx.floor("V1", 14)
